@@ -36,7 +36,7 @@ ASSUMPTIONS = [
 SHARDS = {"quick": 16, "thorough": 16}
 TIMEOUT = {"quick": 900, "thorough": 7200}
 MIN_CASES = {"quick": 1500, "thorough": 30000}
-REQUIRED_COUNTERS = ["quiescent_checks", "failed_setups_closed", "closes_returned_normally", "close_sweep_points", "peer_close_probes", "auth_failure_then_close", "late_loss_probes", "reuse_after_close_histories", "announcements_after_shutdown"]
+REQUIRED_COUNTERS = ["quiescent_checks", "failed_setups_closed", "closes_returned_normally", "close_sweep_points", "peer_close_probes", "auth_failure_then_close", "late_loss_probes", "reuse_after_close_histories", "announcements_after_shutdown", "announcements_during_shutdown"]
 
 FAILS = [
     "refuse", "blackhole", "bad_sig", "bad_tag", "wrong_id", "missing_field", "wrong_state", "bad_key_len",
@@ -152,9 +152,26 @@ class Run:
 
                 def trigger():
                     self.closing_started = True
-                    close_box["task"] = asyncio.ensure_future(w.pairing.close())
+                    if self.key and self.key[-1] == "shutdown-poke":
+                        close_box["task"] = asyncio.ensure_future(w.pairing.shutdown())
+                    else:
+                        close_box["task"] = asyncio.ensure_future(w.pairing.close())
 
                 loop.at_iteration[base + self.sweep_at] = trigger
+                if self.key and self.key[-1] == "shutdown-poke":
+                    # the accessory is announced (zeroconf) in the very iterations in which shutdown() is still waiting inside
+                    # close(): shutdown was CALLED, so the announcement is for a pairing that is shutting down - nothing may be
+                    # (re)started by it
+                    def announce():
+                        if "task" in close_box and not close_box["task"].done():
+                            self.ctx.count("announcements_during_shutdown")
+                        try:
+                            w.pairing._async_description_update(w.description(w.hosts))
+                        except Exception:  # noqa: BLE001
+                            pass
+
+                    loop.at_iteration[base + self.sweep_at + 1] = announce
+                    loop.at_iteration[base + self.sweep_at + 2] = announce
                 if self.key and self.key[-1] == "poke":
                     # a zeroconf sighting / a caller arrives in the very iterations in which close() is waiting for the
                     # connector to stop: whatever that starts, close() is not done until nothing is left running
@@ -523,8 +540,8 @@ async def run_history(ctx, idx, plan, after) -> None:
 
 async def run_sweep(ctx, base_name, k, poke=False) -> None:
     plan, after = SWEEP_BASES[base_name]
-    ctx.case("sweep", base_name, k, poke, nontrivial=k > 0, sample={"close_sweep_base": base_name, "outcomes": plan, "close_at_loop_iteration": k, "trigger_while_close_waits": poke}, kind="sweep-" + base_name + ("-poke" if poke else ""))
-    r = Run(ctx, plan, after, "close", ("sweep", base_name, "poke") if poke else ("sweep", base_name), sweep_at=k, sweep_base=base_name)
+    ctx.case("sweep", base_name, k, poke, nontrivial=k > 0, sample={"close_sweep_base": base_name, "outcomes": plan, "close_at_loop_iteration": k, "announcement_while_shutdown_waits": poke}, kind="sweep-" + base_name + ("-shutdown" if poke else ""))
+    r = Run(ctx, plan, after, "shutdown" if poke else "close", ("sweep", base_name, "shutdown-poke") if poke else ("sweep", base_name), sweep_at=k, sweep_base=base_name)
     r.replay["poke"] = poke
     await r.run()
 
@@ -564,6 +581,9 @@ def run(ctx) -> None:
                     await run_sweep(ctx, base_name, k)
                     # (not swept: an external trigger arriving WHILE close() waits - the unchanged tree re-opens the pairing for
                     # such a trigger in some iterations, e.g. bad-sig-then-ok@29, so nothing can be demanded there; DESIGN 8.4)
+                    # shutdown() is different: once it was CALLED an announcement must not restart anything
+                    if base_name in ("connect-ok", "bad-sig-then-ok", "hang-m4", "refused-backoff", "blackhole"):
+                        await run_sweep(ctx, base_name, k, poke=True)
         ctx.exhaustive_parts["close() at every loop iteration (stride %d) of each base scenario" % stride] = True
 
     with warnings.catch_warnings(record=True) as caught:
